@@ -180,6 +180,10 @@ func gridE(tier string) []tcpx.Spec {
 				}
 			}
 		}
+		// probes of zero bytes
+		for _, real := range []bool{false, true} {
+			out = append(out, tcpx.Spec{RealMetrics: real, Conns: []tcpx.ConnSpec{{Class: "empty", Cipher: c, Var: 0}, {Class: "empty", Cipher: c, Var: 1}, {Class: "cipher", Cipher: c}}})
+		}
 		// both relay directions fail, the client's first
 		for _, real := range []bool{false, true} {
 			out = append(out, tcpx.Spec{TCPBuf: 700, RealMetrics: real, Conns: []tcpx.ConnSpec{{Class: "relay-client-then-gone", Cipher: c}, {Class: "ok", Cipher: c, Up: 20, Down: 30}}})
